@@ -30,7 +30,8 @@ Dominated == \A p \in Pts : T.kept[p] = 0 =>
                     T.kept[q] = 1 /\ T.grp[q] = T.grp[p] /\ T.rank[q] <= T.rank[p]
 
 WellFormed == /\ Len(T.grp) = T.n /\ Len(T.rank) = T.n /\ Len(T.nbr) = T.n /\ Len(T.kept) = T.n
-              /\ {T.rank[p] : p \in Pts} = Pts        \* strict ranks: a permutation (ties are discarded by the driver)
+              /\ \A p \in Pts : T.rank[p] \in Pts   \* dense ranks by the metric; equal metric values share a rank (score ties are
+                                                  \* inside the property: "an equal or better score"), peak maps are plateau-free
               /\ \A p \in Pts : \A k \in DOMAIN T.nbr[p] : T.nbr[p][k] \in Pts /\ T.nbr[p][k] # p
 
 \* peak payload: every output peak carries its voxel's score, and the angles its angle-map entry points to
